@@ -1,7 +1,7 @@
-(* C14 requests: 1400..1412. *)
+(* C14 requests: 1400..1421. *)
 From Coq Require Import List ZArith Bool.
 From PV Require Import lib.Sx lib.Str lib.Result.
-From PV Require Import model.Langs spec.SpecLangs extract.OrCommon.
+From PV Require Import model.Langs spec.SpecLangs spec.SpecFindLang model.LangsMerge extract.OrCommon.
 Import ListNotations.
 Open Scope Z_scope.
 
@@ -67,7 +67,72 @@ Definition sx_body : sx -> option body :=
                           | Some ps => Some (s, ps) | None => None end
                       | _ => None end).
 
+(* wave 7: cues with nodes (None = line break) *)
+Definition sx_mcue (x : sx) : option (Z * Z * list (option str)) :=
+  match x with
+  | SL [SI s; SI e; ns] => match sx_listof sx_ostr ns with Some ns => Some (s, e, ns) | None => None end
+  | _ => None
+  end.
+Definition of_mcue (c : Z * Z * list (option str)) : sx :=
+  SL [SI (fst (fst c)); SI (snd (fst c)); of_list (of_opt SS) (snd c)].
+Definition sx_mset : sx -> option (list (str * list (Z * Z * list (option str)))) :=
+  sx_listof (fun y => match y with
+                      | SL [SS l; cs] => match sx_listof sx_mcue cs with Some cs => Some (l, cs) | None => None end
+                      | _ => None end).
+Definition of_mset (cs : list (str * list (Z * Z * list (option str)))) : sx :=
+  of_list (fun lc => SL [SS (fst lc); of_list of_mcue (snd lc)]) cs.
+Definition sx_sheet : sx -> option (list (str * str)) :=
+  sx_listof (fun y => match y with SL [SS c; SS l] => Some (c, l) | _ => None end).
+
+Definition dispatch7 (code : Z) (arg : sx) : option sx :=
+  match code with
+  | 1413 => Some (match arg with          (* [styles; attrs] -> find_lang *)
+                  | SL [st; a] => match sx_styles st, sx_attrs a with
+                                  | Some st, Some a => of_opt SS (find_lang a st) | _, _ => bad end
+                  | _ => bad end)
+  | 1414 => Some (match arg with          (* [styles; attrs; observed] -> ok_find_lang *)
+                  | SL [st; a; o] => match sx_styles st, sx_attrs a, sx_ostr o with
+                                     | Some st, Some a, Some o => of_bool (ok_find_lang st a o) | _, _, _ => bad end
+                  | _ => bad end)
+  | 1415 => Some (match arg with          (* [default; styles; list of attrs] -> [tags; langs] *)
+                  | SL [SS default; st; ps] =>
+                      match sx_styles st, sx_listof sx_attrs ps with
+                      | Some st, Some ps => let r := p_langs default st ps in SL [of_list SS (fst r); of_list SS (snd r)]
+                      | _, _ => bad end
+                  | _ => bad end)
+  | 1416 => Some (match arg with          (* [default; styles; list of attrs; tags; langs] -> ok_p_langs *)
+                  | SL [SS default; st; ps; tg; ls] =>
+                      match sx_styles st, sx_listof sx_attrs ps, sx_listof sx_str tg, sx_listof sx_str ls with
+                      | Some st, Some ps, Some tg, Some ls => of_bool (ok_p_langs default st ps tg ls)
+                      | _, _, _, _ => bad end
+                  | _ => bad end)
+  | 1417 => Some (match sx_sheet arg with  (* written language blocks -> the dict the parser rebuilds *)
+                  | Some sh => of_list (fun kv => SL [SS (fst kv); of_opt SS (snd kv)]) (read_styles sh)
+                  | None => bad end)
+  | 1418 => Some (match arg with          (* [default; lang; class opt; styles; langs] -> language read back *)
+                  | SL [SS default; SS lang; c; st; ls] =>
+                      match sx_ostr c, sx_styles st, sx_listof sx_str ls with
+                      | Some c, Some st, Some ls => SS (reread_lang default (p_class lang c st) (sheet_langs st ls))
+                      | _, _, _ => bad end
+                  | _ => bad end)
+  | 1419 => Some (match sx_mset arg with Some cs => of_mset (merge_concurrent cs) | None => bad end)
+  | 1421 => Some (match arg with          (* [force; legacy?; set with nodes] -> [document written after merging; merged set] *)
+                  | SL [SS force; SI legacy; cs] =>
+                      match sx_mset cs with
+                      | Some cs => SL [if legacy =? 1 then of_result of_doc (legacy_merge_write force cs)
+                                       else of_doc (single_write force cs);
+                                       of_capset (flat_set (merge_concurrent cs))]
+                      | None => bad end
+                  | _ => bad end)
+  | 1420 => Some (match arg with
+                  | SL [cs; obs] => match sx_mset cs, sx_mset obs with
+                                    | Some cs, Some obs => of_bool (ok_merge cs obs) | _, _ => bad end
+                  | _ => bad end)
+  | _ => None
+  end.
+
 Definition dispatch (code : Z) (arg : sx) : option sx :=
+  match dispatch7 code arg with Some r => Some r | None =>
   match code with
   | 1400 => Some (match arg with
                   | SL [SS default; dl; divs] =>
@@ -145,4 +210,4 @@ Definition dispatch (code : Z) (arg : sx) : option sx :=
                       | _, _ => bad end
                   | _ => bad end)
   | _ => None
-  end.
+  end end.
